@@ -29,6 +29,8 @@ Hypothesis HJson : forall t, P t -> P (JsonRoundTrip t).
 Hypothesis HListOf : forall t, P t -> P (ListOf t).
 Hypothesis HStackOf : forall t, P t -> P (StackOf t).
 Hypothesis HSliceOf : forall t, P t -> P (SliceOf t).
+Hypothesis HJsonArr : forall l, P (JsonArr l).
+Hypothesis HJsonRecs : forall l, P (JsonRecs l).
 
 Fixpoint tree_ind2 (t : tree) : P t :=
   let all := fix all (ts : list tree) : Forall P ts :=
@@ -54,6 +56,8 @@ Fixpoint tree_ind2 (t : tree) : P t :=
   | ListOf t => HListOf t (tree_ind2 t)
   | StackOf t => HStackOf t (tree_ind2 t)
   | SliceOf t => HSliceOf t (tree_ind2 t)
+  | JsonArr l => HJsonArr l
+  | JsonRecs l => HJsonRecs l
   end.
 End TreeInd.
 
@@ -233,4 +237,12 @@ Proof.
     apply (mk_spec_none _ _ _ _ (pipe_reads KStack _ _ _ _ R)).
   - (* SliceOf *) child_spec IHt vs fin es Ht c' R Hc Hes. simpl.
     apply (mk_spec_none _ _ _ _ (pipe_reads KSliceOf _ _ _ _ R)).
+  - (* JsonArr *)
+    destruct (join_first OEof OEof _ _ _ _ _ _ _ _ (slice_reads []) (queue_reads (map dflt l))) as [s' R'].
+    simpl in R'. apply (mk_spec_none _ _ _ _ R').
+  - (* JsonRecs *)
+    destruct (join_first OEof OEof _ _ _ _ _ _ _ _ (slice_reads []) (queue_reads (map dec_rec l))) as [s' R'].
+    simpl in R'. pose proof (mk_spec_none _ _ _ _ R') as (_ & c1 & R1 & _ & _). simpl in R1.
+    destruct (transform_reads id_fun _ _ _ _ R1 0) as [p2 R2]. rewrite tvals_id in R2. simpl in R2.
+    apply (mk_spec_none _ _ _ _ R2).
 Qed.
